@@ -174,9 +174,9 @@ Definition chk_size (k : nat) : bool :=
   let c := Gen_Segments.GetItemCount (Z.of_nat k) in Z.ltb 0 c && Z.eqb c (64 * (c / 64)).
 
 Lemma chk_all : forallb chk (seq 1 4095) = true.
-Proof. vm_compute. reflexivity. Qed.
+Proof. Timeout 600 vm_compute. reflexivity. Qed.
 Lemma chk_sizes : forallb chk_size (seq 0 4098) = true.
-Proof. vm_compute. reflexivity. Qed.
+Proof. Timeout 600 vm_compute. reflexivity. Qed.
 Lemma bndl_top : Z.of_nat max_vals <= nth 199 bndl 0.
 Proof. vm_compute. discriminate. Qed.
 Lemma seg_size_0 : seg_size 0 = 64%nat.
@@ -294,7 +294,7 @@ Definition chk3 (m : nat) : bool :=
   then Z.leb 1 (fst p) && Z.ltb (fst p) 4096 && Z.leb (Gen_Segments.GetItemCount (fst p - 1)) z
   else true.
 Lemma chk3_all : forallb chk3 (seq 1 4095) = true.
-Proof. vm_compute. reflexivity. Qed.
+Proof. Timeout 600 vm_compute. reflexivity. Qed.
 
 Definition range_Z (z : Z) : Z * Z :=
   if Z.ltb 0 z && Z.eqb (z mod 64) 0 then
